@@ -152,6 +152,10 @@ func verifHarness_C19_InFlightDuplicate41() {
 // executed again.
 func verifHarness_C19_HeldDuplicate41() {
 	rt.MustCover("held:cached", "held:uncached", "held:late-retry-uncached")
+	verifC19_heldDuplicate41()
+}
+
+func verifC19_heldDuplicate41() {
 	r := verifNewRig41("f")
 	r.login("client-a", 1)
 	r.uncached = rt.NondetBool("the client does not ask for the reply to be cached")
